@@ -19,3 +19,11 @@ package common
 //@ func ExtractNamesapce(rawKey []byte) (string, []byte, error)
 //@   ensures result2 == nil <==> (exists idx int :: idx >= 1 && firstSep(rawKey, idx))
 //@   ensures result2 == nil ==> (forall idx int :: firstSep(rawKey, idx) ==> sameSlice(result1, rawKey[idx+1:len(rawKey)]) && len(result0) == idx && (forall i int :: 0 <= i && i < idx ==> result0[i] == rawKey[i]))
+
+//@ property C08 C09 C11
+//@ func CheckKey(key []byte) error
+//@   ensures result == nil <==> (1 <= len(key) && len(key) <= MaxKeySize)
+//@ func CheckSubKey(subkey []byte) error
+//@   ensures result == nil <==> len(subkey) <= MaxSubKeyLen
+//@ func CheckKeySubKey(key []byte, field []byte) error
+//@   ensures result == nil <==> (1 <= len(key) && len(key) <= MaxKeySize && len(field) <= MaxSubKeyLen)
